@@ -35,3 +35,31 @@ Fixpoint prun (s : pstate) (tr : list pev) : option pstate :=
 
 Definition pool_trace_ok (tr : list pev) : bool :=
   match prun (mkPs [] []) tr with Some _ => true | None => false end.
+
+(** * Contents (C15): bufferPool.Get resets whatever it hands out; Put does not keep buffers
+    whose capacity exceeds maxRecycleBufferSize (regenerated constant).  sync.Pool may return
+    any pooled buffer, or none: [pick] is that choice. *)
+From VG Require Import Gen.Generated.
+
+Record pbuf := mkPbuf { pb_id : Z; pb_cap : Z; pb_data : bytes }.
+
+Definition pool_put (idle : list pbuf) (b : pbuf) : list pbuf :=
+  if max_recycle_buffer_size <? pb_cap b then idle else b :: idle.
+
+(** [pick idle] chooses what sync.Pool.Get returns: [Some (b, rest)] or [None] (then a new buffer) *)
+Definition pool_get (pick : list pbuf -> option (pbuf * list pbuf)) (fresh : Z) (idle : list pbuf) : pbuf * list pbuf :=
+  match pick idle with
+  | Some (b, rest) => (mkPbuf (pb_id b) (pb_cap b) [], rest)
+  | None => (mkPbuf fresh initial_buffer_size [], idle)
+  end.
+
+Inductive cop := CPut (b : pbuf) | CGet (fresh : Z).
+
+(** a history of pool operations; the results of the Gets are collected *)
+Fixpoint pool_history (pick : list pbuf -> option (pbuf * list pbuf)) (ops : list cop) (idle : list pbuf) (got : list pbuf)
+  : list pbuf * list pbuf :=
+  match ops with
+  | [] => (idle, got)
+  | CPut b :: r => pool_history pick r (pool_put idle b) got
+  | CGet f :: r => let '(b, idle') := pool_get pick f idle in pool_history pick r idle' (got ++ [b])
+  end.
